@@ -413,3 +413,53 @@ def value_set(ctx, func, node, expr, depth=5, limit=64, stop=None):
                 out.add(src(R().visit(copy.deepcopy(e))))
         return out
     return expand(node, expr, depth, frozenset())
+
+
+# ------------------------------------------------------------------ call sites vs signatures
+ARG_SCOPE = {
+    "C01": ["rrule.rrule", "rrule._iterinfo"], "C10": ["rrule.rruleset"], "C12": ["rrule.rrulebase"], "C13": ["rrule._rrulestr"],
+    "C02": ["parser._parser.parser", "parser._parser._ymd", "parser._parser.parserinfo"], "C15": ["parser._parser.parser"],
+    "C03": ["relativedelta.relativedelta"], "C07": ["parser.isoparser.isoparser"], "C20": ["parser.isoparser.isoparser"],
+    "C06": ["tz.tz.tzfile"], "C08": ["tz.tz.tzstr", "tz.tz.tzrange", "parser._parser._tzparser"], "C17": ["tz.tz.tzical", "tz.tz._tzicalvtz"],
+    "C04": ["tz._common._tzinfo", "tz._common.tzrangebase"], "C18": ["tz._factories._TzSingleton", "tz._factories._TzOffsetFactory", "tz._factories._TzStrFactory"],
+}
+
+
+def check_call_arguments(ctx, rule, prop):
+    """A variable that carries the name of one of the callee's parameters is passed in that parameter's position:
+    at every call of an in-package function / method from the property's classes, a positional argument `a` that is a
+    plain name equal to the name of a *different* parameter of the callee is a transposition."""
+    from .model import FuncInfo
+    prog = ctx.prog
+    n_calls = 0
+    for cq in ARG_SCOPE.get(prop, []):
+        c = prog.cls(cq, rule)
+        for name, f in sorted(c.methods.items()):
+            for x in walk_local(f.node):
+                if not isinstance(x, ast.Call):
+                    continue
+                fn = x.func
+                callee = None
+                if isinstance(fn, ast.Attribute) and isinstance(fn.value, ast.Name) and fn.value.id == "self":
+                    r = prog.class_lookup(c, fn.attr)
+                    if r and isinstance(r[0], FuncInfo):
+                        callee = r[0]
+                elif isinstance(fn, ast.Name):
+                    r = prog.resolve_dotted(fn.id, f.module, c, f)
+                    if isinstance(r, FuncInfo):
+                        callee = r
+                if callee is None:
+                    continue
+                params = callee.positional_params
+                if params and params[0] in ("self", "cls") and isinstance(fn, ast.Attribute):
+                    params = params[1:]
+                named = [(i, a.id) for i, a in enumerate(x.args) if isinstance(a, ast.Name) and i < len(params) and a.id in params]
+                if not named:
+                    continue
+                n_calls += 1
+                bad = [(i, a) for i, a in named if a != params[i]]
+                ctx.ob(rule, f, "arguments named like the callee's parameters are passed in those parameters' positions", not bad,
+                       construct="%s -> %s(%s)" % (f.name, callee.name, ", ".join(a for _, a in named)),
+                       detail="" if not bad else "`%s` is passed where %s expects `%s`" % (bad[0][1], callee.name, params[bad[0][0]]),
+                       analysis="call site / signature agreement over resolved callees")
+    return n_calls
